@@ -27,6 +27,15 @@ def gen_cases(rng, tier):
         c = I.gen_case(rng, big=(tier == "thorough" and rng.random() < 0.3))
         if c["sides"] or rng.random() < 0.1:
             out.append(c)
+    # the real DataLoader with per-dataset collators: 0 and 2 workers
+    n_loader = 4 if tier == "quick" else 60
+    k = 0
+    while k < n_loader:
+        c = I.gen_case(rng)
+        if c["sides"] and c["start"] is None and c["N"] <= 16 and c["budget"][1] > 0:
+            c["loader"] = 0 if k % 2 == 0 else 2
+            out.append(c)
+            k += 1
     return out
 
 
@@ -78,6 +87,25 @@ def oracle(case, obs):
         d, j = ds_of(r[0])
         if len(r) != 3 or r[1] != d or r[2] != [d, j]:
             return f"index {r[0]} should resolve to dataset {d} sample {j}, concat dataset answered {r[1:]}"
+    # through the real DataLoader: one dataset per batch, collated by that dataset's collator
+    if case.get("loader") is not None:
+        lb = obs.get("loader_batches")
+        if not isinstance(lb, list):
+            return f"DataLoader(num_workers={case['loader']}) failed: {lb}"
+        expb = []
+        cur = []
+        for ev in exp:
+            if ev[0] != "Y":
+                continue
+            cur.append(ev[2])
+            if ev[1]:
+                d = ds_of(cur[0])[0]
+                expb.append([d, [[d, ds_of(i)[1]] for i in cur]])
+                cur = []
+        if lb != expb:
+            k = next((i for i in range(min(len(lb), len(expb))) if lb[i] != expb[i]), min(len(lb), len(expb)))
+            return (f"DataLoader(num_workers={case['loader']}) batch {k}: expected [collator tag, samples] "
+                    f"{expb[k:k + 1]} got {lb[k:k + 1]}")
     # side batch flags: config batch size else main, short final batch (checked via spec equality above)
     return None
 
